@@ -351,7 +351,7 @@ CONDITIONS = [
                 "check_split_run(6, 4, 0, 3, [3, 4, 5])"]),
     dict(fn="check_split_fill", budget=(70, 600),
          smoke=["check_split_fill(4, 5, False, [3, 4])", "check_split_fill(4, 4, True, [3, 4])"]),
-    dict(fn="check_accumulator", shards=(18, 18), budget=(90, 1500),
+    dict(fn="check_accumulator", shards=(18, 18), budget=(190, 1500),
          smoke=["check_accumulator(0, [0, 1, 0, 1], [0, 0, 1, 0])", "check_accumulator(5, [0, 1, 1], [1, 0, 0])",
                 "check_accumulator(7, [0, 0, 1], [0, 1, 0])", "check_accumulator(4, [0, 1], [2, 0])",
                 "check_accumulator(1, [0, 1], [2, 0])", "check_accumulator(2, [0, 1], [2, 0])", "check_accumulator(8, [0, 1, 1], [0, 0, 0])"]),
